@@ -4,6 +4,7 @@ import WhVerif.Lemmas.C06Realign
 import WhVerif.Lemmas.C06Cigar
 import WhVerif.Lemmas.C06Iter
 import WhVerif.Lemmas.C06Locate
+import WhVerif.Lemmas.C06Window
 /-!
 # C06 — allele detection never assigns the wrong allele to an error-free read: theorems about the model
 
@@ -290,5 +291,146 @@ theorem iterateCigar_not_in_N (positions : List Nat) (j start : Nat) (a b : Ciga
   simp only [yieldOfLoc] at hcon
   rw [hp] at hcon; cases hcon
   rw [locate_in_N _ a b len 0 start 0 hin hI] at ht; cases ht
+
+/-! ## `window_is_padded_allele` — SNV / MNP -/
+
+/-- the haplotype that carries allele `a` of a length-preserving variant at `pos` -/
+def hapSeq (R : Seq) (pos L : Nat) (a : Seq) : Seq := R.take pos ++ a ++ R.drop (pos + L)
+
+/-- `window_is_padded_allele`, SNV/MNP (the full statement also covers insertions and deletions; those are not proved,
+see notes/C06.md).  An error-free read: the CIGAR is `A ++ [mop m] ++ B` with `mop` ∈ {M,=,X}; the M block covers the
+variant (`ref`/`alt` of equal length, the reference carries `ref` at `pos`); the block's query bases are a copy of the
+haplotype carrying allele `h`; on either side the block reaches the end of the ±`oh` window, or the read ends there
+(only S/H operations beyond) — i.e. no other non-reference allele and no other operation inside the window.
+Then, at the split point the walker reports for this variant, `realign`'s window is
+`left_pad ++ allele ++ right_pad` for REF and ALT, and the extracted query is the one of the carried allele — also when
+the window is truncated by the read start/end. -/
+theorem window_is_padded_allele_snv_mnp_partial (f14 : Bool) (R query : Seq) (pos : Nat) (ref alt : Seq) (h : Nat)
+    (A B : Cigar) (mop m start oh : Nat) (hm : isMatch mop = true) (hoh : 0 < oh)
+    (hL : alt.length = ref.length) (hL0 : 0 < ref.length)
+    (hR : slice R pos ref.length = ref)
+    (hcov : start + refLen A ≤ pos ∧ pos + ref.length ≤ start + refLen A + m)
+    (hin : start + refLen A + m ≤ R.length)
+    (hleft : oh ≤ pos - (start + refLen A) ∨ A.all isClip = true)
+    (hright : oh ≤ start + refLen A + m - (pos + ref.length) ∨ B.all isClip = true)
+    (hq : slice query (qLen A) m =
+      slice (hapSeq R pos ref.length (if h = 0 then ref else alt)) (start + refLen A) m) :
+    ∃ lp rp, window f14 ⟨pos, ref, [alt]⟩ query (A ++ (mop, m) :: B) A.length (pos - (start + refLen A))
+        ((qLen A + (pos - (start + refLen A)) : Nat) : Int) R oh
+      = .ok ⟨lp ++ (if h = 0 then ref else alt) ++ rp, [lp ++ ref ++ rp, lp ++ alt ++ rp]⟩ := by
+  -- abbreviations
+  generalize hs : start + refLen A = s at *
+  generalize hd : pos - s = d at *
+  have hdm : d < m := by omega
+  have hposd : pos = s + d := by omega
+  have hposR : pos ≤ R.length := by omega
+  -- the two halves of the split and their prefix lengths
+  have hc : (A ++ (mop, m) :: B)[A.length]? = some (mop, m) := getElem?_append_length A B (mop, m)
+  have hleftc : splitLeft (A ++ (mop, m) :: B) A.length d = .ok ((if d > 0 then [(mop, d)] else []) ++ A.reverse) := by
+    simp [splitLeft, hc, Nat.le_of_lt hdm]
+  have hrightc : splitRight (A ++ (mop, m) :: B) A.length d = .ok ((if m - d > 0 then [(mop, m - d)] else []) ++ B) := by
+    have : m - d > 0 := by omega
+    simp [splitRight, hc, hdm, this, drop_append_length_succ]
+  have hpl := prefix_block f14 mop d oh A.reverse hm hoh (by
+    rcases hleft with h1 | h1
+    · left; exact h1
+    · right; rw [all_reverse]; exact h1)
+  have hpr := prefix_block f14 mop (m - d) (ref.length + oh) B hm (by omega) (by
+    rcases hright with h1 | h1
+    · left; omega
+    · right; exact h1)
+  -- the window widths
+  generalize hlw : min oh d = lw at *
+  generalize hrw : min (ref.length + oh) (m - d) = rw at *
+  have hlwd : lw ≤ d := by omega
+  have hrwL : ref.length ≤ rw := by omega
+  have hrwm : rw ≤ m - d := by omega
+  have hA1 : ¬ pos < lw := by omega
+  have hA2 : ¬ pos + rw > R.length := by omega
+  refine ⟨slice R (pos - lw) lw, slice R (pos + ref.length) (rw - ref.length), ?_⟩
+  simp only [window, hleftc, hpl, hrightc, hpr, hA1, hA2, if_false, List.map_cons, List.map_nil]
+  -- integer slices → natural slices
+  have i1 : ((qLen A + d : Nat) : Int) - (lw : Int) = ((qLen A + d - lw : Nat) : Int) := by omega
+  have i2 : ((qLen A + d : Nat) : Int) + (rw : Int) = ((qLen A + d + rw : Nat) : Int) := by omega
+  have i3 : (pos : Int) - (lw : Int) = ((pos - lw : Nat) : Int) := by omega
+  have i4 : (pos : Int) + (ref.length : Int) = ((pos + ref.length : Nat) : Int) := by omega
+  have i5 : (pos : Int) + (rw : Int) = ((pos + rw : Nat) : Int) := by omega
+  rw [i1, i2, i3, i4, i5]
+  simp only [pySlice_nat]
+  -- left pad, right pad
+  have e1 : pos - (pos - lw) = lw := by omega
+  have e2 : pos + rw - (pos + ref.length) = rw - ref.length := by omega
+  have e3 : pos + rw - (pos - lw) = (pos - (pos - lw)) + rw := by omega
+  have e4 : qLen A + d + rw - (qLen A + d - lw) = (pos - (pos - lw)) + rw := by omega
+  rw [e1, e2]
+  -- padded REF = the reference slice
+  have hRd := ref_decomp R ref pos hR
+  have hpadref : slice R (pos - lw) (pos + rw - (pos - lw)) =
+      slice R (pos - lw) lw ++ ref ++ slice R (pos + ref.length) (rw - ref.length) := by
+    rw [e3]
+    conv => lhs; rw [hRd]
+    have := slice_hap R ref pos ref.length (pos - lw) rw (by omega) hposR hrwL
+    rw [this, e1]
+  -- the query slice = the haplotype slice
+  have hqs : slice query (qLen A + d - lw) (qLen A + d + rw - (qLen A + d - lw)) =
+      slice R (pos - lw) lw ++ (if h = 0 then ref else alt) ++ slice R (pos + ref.length) (rw - ref.length) := by
+    rw [e4]
+    have hal : (if h = 0 then ref else alt).length = ref.length := by split <;> simp [hL]
+    have e5 : qLen A + d - lw = qLen A + (d - lw) := by omega
+    rw [e5, ← slice_slice query (qLen A) m (d - lw) _ (by omega), hq,
+      slice_slice _ s m (d - lw) _ (by omega)]
+    have e6 : s + (d - lw) = pos - lw := by omega
+    rw [e6]
+    unfold hapSeq
+    have := slice_hap R (if h = 0 then ref else alt) pos ref.length (pos - lw) rw (by omega) hposR (by omega)
+    rw [this, e1, hal]
+  rw [hpadref, hqs]
+
+/-- consequence of the window lemma and `realign_sound`: for such a read `realign` returns the carried allele `h` -/
+theorem realign_snv_mnp_correct (f14 : Bool) (R query : Seq) (pos : Nat) (ref alt : Seq) (h : Nat) (hh : h < 2)
+    (A B : Cigar) (mop m start oh : Nat) (hm : isMatch mop = true) (hoh : 0 < oh)
+    (hL : alt.length = ref.length) (hL0 : 0 < ref.length) (hne : ref ≠ alt) (hsym : alt.head? ≠ some '<')
+    (hR : slice R pos ref.length = ref)
+    (hcov : start + refLen A ≤ pos ∧ pos + ref.length ≤ start + refLen A + m)
+    (hin : start + refLen A + m ≤ R.length)
+    (hleft : oh ≤ pos - (start + refLen A) ∨ A.all isClip = true)
+    (hright : oh ≤ start + refLen A + m - (pos + ref.length) ∨ B.all isClip = true)
+    (hq : slice query (qLen A) m =
+      slice (hapSeq R pos ref.length (if h = 0 then ref else alt)) (start + refLen A) m) :
+    realign f14 lev ⟨pos, ref, [alt]⟩ none query (A ++ (mop, m) :: B) A.length (pos - (start + refLen A))
+        ((qLen A + (pos - (start + refLen A)) : Nat) : Int) R oh = .ok (some h) := by
+  obtain ⟨lp, rp, hw⟩ := window_is_padded_allele_snv_mnp_partial f14 R query pos ref alt h A B mop m start oh hm hoh hL hL0
+    hR hcov hin hleft hright hq
+  have hs : isSymbolic ⟨pos, ref, [alt]⟩ = false := by
+    simp only [isSymbolic, List.any_cons, List.any_nil, Bool.or_false]
+    simpa using hsym
+  apply realign_sound_exact f14 _ query _ _ _ _ R oh _ hs hw h
+  · have : h = 0 ∨ h = 1 := by omega
+    rcases this with rfl | rfl <;> simp
+  · intro k pk hk hkh
+    have hcases : h = 0 ∨ h = 1 := by omega
+    have hpad : ∀ k pk, [lp ++ ref ++ rp, lp ++ alt ++ rp][k]? = some pk → k = 0 ∧ pk = lp ++ ref ++ rp ∨ k = 1 ∧ pk = lp ++ alt ++ rp := by
+      intro k pk hk
+      match k with
+      | 0 => left; simp at hk; exact ⟨rfl, by simp [← hk]⟩
+      | 1 => right; simp at hk; exact ⟨rfl, by simp [← hk]⟩
+      | k + 2 => simp at hk
+    rcases hpad k pk hk with ⟨rfl, rfl⟩ | ⟨rfl, rfl⟩ <;> rcases hcases with rfl | rfl
+    · exact absurd rfl hkh
+    · simp only [List.append_assoc, Nat.succ_ne_zero, if_false, ne_eq, List.append_cancel_left_eq, List.append_cancel_right_eq]
+      exact hne
+    · simp only [List.append_assoc, if_true, ne_eq, List.append_cancel_left_eq, List.append_cancel_right_eq]
+      exact fun e => hne e.symm
+    · exact absurd rfl hkh
+
+/-- … and the walker does report exactly that split point: a variant strictly inside an M block (at least one aligned
+base before it) is yielded with `i` = index of the block, `consumed` = offset in the block, `query_pos` = query bases
+before it. (`locate` is the walker's result by `iterateCigar_spec`.) -/
+theorem walker_split_in_block (A B : Cigar) (mop m pos start : Nat) (hm : isMatch mop = true)
+    (hin : start + refLen A < pos ∧ pos < start + refLen A + m) :
+    locate pos 0 start 0 (A ++ (mop, m) :: B) =
+      some (A.length, pos - (start + refLen A), qLen A + (pos - (start + refLen A))) := by
+  have := locate_in_block A B mop m pos 0 start 0 hm hin
+  simpa using this
 
 end WhVerif.Props.C06
